@@ -15,7 +15,8 @@ ASSUMPTIONS = ["estimate comparison tolerance 1e-12 relative (same formula, poss
                "an improvement on a reference best loss of exactly 0 is excluded (the published formula divides by it)"]
 SHARDS = {"quick": 4, "thorough": 16}
 
-rewards = st.one_of(st.floats(-10, 10, allow_nan=False), st.sampled_from([0.0, 1.0, 0.5, 1e-9, 1e6]))
+rewards = st.one_of(st.floats(-10, 10, allow_nan=False), st.sampled_from([0.0, 1.0, 0.5, 1e-9, 1e6]),
+                    st.sampled_from([0, 1, -1, 3]))   # integer-valued rewards (given as Python ints) too
 
 
 @st.composite
@@ -29,7 +30,9 @@ def agent_cases(draw):
                    st.tuples(st.just("learn"), st.just(draw(st.integers(0, n - 1))), rewards),
                    st.tuples(st.just("reseed"), st.integers(0, 1000)))
     ops = [list(o) for o in draw(st.lists(op, min_size=1, max_size=40))]
-    return {"n": n, "alpha": alpha, "eps": eps, "init": init, "seed": seed, "ops": ops}
+    # how actions and rewards are typed when handed to learn(): plain Python numbers or numpy scalars
+    return {"n": n, "alpha": alpha, "eps": eps, "init": init, "seed": seed, "ops": ops,
+            "np_scalars": draw(st.booleans())}
 
 
 def close(a, b, tol=1e-12):
@@ -79,9 +82,13 @@ def check_agent(ctx: Ctx, case):
             elif o[0] == "learn":
                 _, act, r = o
                 before = list(a.Q)
-                a.learn(0, act, r, 0)
-                twin.learn(0, act, r, 0)
-                other.learn(0, act, r, 0)
+                if case.get("np_scalars"):
+                    act_arg, r_arg = np.int64(act), (np.int64(r) if isinstance(r, int) else np.float64(r))
+                else:
+                    act_arg, r_arg = act, r
+                a.learn(0, act_arg, r_arg, 0)
+                twin.learn(0, act_arg, r_arg, 0)
+                other.learn(0, act_arg, r_arg, 0)
                 cnt[act] += 1
                 stepsize = 1.0 / cnt[act] if alpha == -1 else alpha
                 q[act] = q[act] + stepsize * (r - q[act])
